@@ -60,7 +60,10 @@ CLAIM = dict(
          'a non-default value one at a time (booleans flipped, numeric options changed, optional arrays / callbacks / dictionaries '
          'supplied) in the history / shared-arguments / poison streams; the shared-arguments stream is repeated for three memory '
          'layouts of the inputs (C-ordered, Fortran-ordered, all TT-ranks 1) and for list / exact-dtype ndarray / single-item forms of '
-         'index, point and grid-option arguments; history with DIFFERENT data (f(x1) then f(x2) against f(x2) first in a fresh import); a result-mutation stream (call, overwrite the returned '
+         'index, point and grid-option arguments (quick tier: all recipes on the C layout, a round-robin third on the other layouts and of '
+         'the option-coverage recipes under poisoning; thorough tier: everything); a LARGE-size regime with small explicit caps (mode '
+         'sizes 12..16, ranks 11..13, r = 1 / 2) repeated three times; a recording Generator (copies included): every draw through the '
+         'object passed, replay of all recorded blocks on ONE twin generator and final bit_generator.state; history with DIFFERENT data (f(x1) then f(x2) against f(x2) first in a fresh import); a result-mutation stream (call, overwrite the returned '
          'objects in place, call again, compare bytes with a snapshot); the pairs not exercised are listed in the evidence '
          '(coverage.options_not_exercised)) -- that part is '
          'validation, not proof. For np.empty the translator only checks that a store is executed on every path; that the '
@@ -266,6 +269,15 @@ class Env:
         self.Isp = np.array([[0, 0, 0], [1, 1, 1], [2, 2, 2], [3, 3, 3], [0, 1, 2], [1, 2, 3]])
         self.ysp = np.arange(6.) + 1
         self.Xg = [np.cos(np.pi * np.arange(4) / 3) for _ in range(3)]
+        nL = [12, 14, 13]
+        IL = np.vstack([g.integers(0, k, 900) for k in nL]).T
+        self.large = dict(
+            M=g.uniform(-1, 1, (60, 25)), M16=g.uniform(-1, 1, (16, 16)),
+            Y=[g.uniform(-1, 1, (1, 12, 12)), g.uniform(-1, 1, (12, 14, 13)), g.uniform(-1, 1, (13, 13, 1))],
+            Y2=[g.uniform(-1, 1, (1, 12, 2)), g.uniform(-1, 1, (2, 14, 2)), g.uniform(-1, 1, (2, 13, 1))],
+            Y1=[g.uniform(-1, 1, (1, 12, 1)), g.uniform(-1, 1, (1, 14, 1)), g.uniform(-1, 1, (1, 13, 1))],
+            Y16=[g.uniform(-1, 1, (1, 16, 11)), g.uniform(-1, 1, (11, 16, 11)), g.uniform(-1, 1, (11, 16, 1))],
+            T=g.uniform(-1, 1, (12, 14, 13)), I=IL, y=np.sin(IL.sum(axis=1) * 0.2) + 0.05 * IL[:, 0])
         # memory layouts of the same inputs: C-ordered (as built above / by teneva.copy), Fortran-ordered (as built by
         # teneva.rand), all TT-ranks equal to 1 (every unfolding of a core is a view)
         tts = ['Y', 'Y2', 'Yp', 'A', 'Y0', 'Y1', 'Yp1', 'A1', 'Yq', 'Ybig', 'Ytiny']
@@ -486,13 +498,15 @@ def check_result_mutation(E, seeds, fails, stats, only=None):
                               got=short(r2), expected=short(snap)))
 
 
-def check_shared_args(E, seeds, fails, stats, only=None):
+def check_shared_args(E, seeds, fails, stats, only=None, sample=None):
     """every recipe called three times on the SAME argument objects (no copies), interleaved with the other recipes that use
     them: every call must give the reference result (computed on saved copies) and the argument objects must be bit-identical
     afterwards"""
     attrs = [a for a in vars(E) if isinstance(getattr(E, a), (list, np.ndarray))]
     ths = [(k, t) for k, t in all_thunks(E, seeds, degenerate=False) if (not only or 'shared' in only or k[0] in only)
            and '[documented in-place]' not in k[0]]
+    if sample:       # quick tier: a round-robin third of the recipes (the offset changes with VERIF_SEED)
+        ths = [kt for j, kt in enumerate(ths) if j % sample[0] == sample[1]]
     refs = {}
     for key, t in ths:
         np.random.seed(4)
@@ -500,6 +514,33 @@ def check_shared_args(E, seeds, fails, stats, only=None):
     before = {a: canon(getattr(E, a)) for a in attrs}
     store = E.__dict__.get('_form_store', {})
     sbefore = {k: canon([v[0], sorted(v[1].items(), key=lambda kv: kv[0])]) for k, v in store.items()}
+    import zlib
+
+    def collect(x, arrs, lists, depth=0):
+        if isinstance(x, np.ndarray) and x.dtype != object:
+            arrs.append(x)
+        elif isinstance(x, (list, tuple)) and depth < 5:
+            if isinstance(x, list):
+                lists.append(x)
+            for y_ in x:
+                collect(y_, arrs, lists, depth + 1)
+        elif isinstance(x, dict) and depth < 5:
+            lists.append(x)
+            for y_ in x.values():
+                collect(y_, arrs, lists, depth + 1)
+    arrs, lists = [], []
+    for a in attrs:
+        collect(getattr(E, a), arrs, lists)
+    for v in store.values():
+        collect(v[0], arrs, lists)
+        collect(v[1], arrs, lists)
+
+    def fingerprint():
+        h = 0
+        for x in arrs:
+            h = zlib.crc32(x.tobytes() if not x.flags.c_contiguous else memoryview(x).cast('B'), h)
+        return h, tuple(len(x) for x in lists)
+    fp = fingerprint()
     _SHARE[0] = True
     try:
         for rnd in range(3):
@@ -513,6 +554,10 @@ def check_shared_args(E, seeds, fails, stats, only=None):
                                       input=dict(recipe=['shared', key[0], key[1]], seed=key[2], round=rnd, layout=E.layout, mode='shared-arguments'),
                                       got=short(r), expected=short(refs[key])))
                     refs[key] = r
+                fp2 = fingerprint()
+                if fp2 == fp:
+                    continue
+                fp = fp2
                 bad = [a for a in attrs if canon(getattr(E, a)) != before[a]]
                 for k, v in store.items():
                     c = canon([v[0], sorted(v[1].items(), key=lambda kv: kv[0])])
@@ -1048,13 +1093,15 @@ def finding_key_of(name):
     return None
 
 
-def poison_probe(E, seeds, fails, stats, only=None):
+def poison_probe(E, seeds, fails, stats, only=None, sample=None):
     """every recipe under differently poisoned allocators (after a block of other library calls): bitwise equal results"""
     for j, (key, th) in enumerate(all_thunks(E, seeds)):
         if only and key[0] not in only and 'poison' not in only:
             continue
-        ref = None
         light = key[1] == 'option coverage'
+        if light and sample and j % sample[0] != sample[1]:
+            continue
+        ref = None
         for i, val in enumerate(POISON_VALUES[:1] + (POISON_VALUES[:2] if light else POISON_VALUES)):
             if not light or i == 1:
                 churn(E, i + j)
@@ -1308,6 +1355,145 @@ def check_seeded(E, name, label, call, seeds, nworlds, predict, fails, stats):
 class SubGen(np.random.Generator):
     """a Generator subclass (a documented form of `seed`: 'a numpy Generator class instance')"""
     pass
+
+
+class RecGen(np.random.Generator):
+    """a Generator that records every draw made through ANY instance of the class (copies included) in a class-level log"""
+    LOG = []
+    DEPTH = [0]
+
+    def __reduce__(self):            # copy.copy / copy.deepcopy / pickle give a RecGen again, so the draws of a copy are recorded too
+        bg = self.bit_generator
+        st = copy.deepcopy(bg.state)
+        return (_recgen_rebuild, (type(bg), st))
+
+    def __deepcopy__(self, memo):
+        f, a = self.__reduce__()
+        return f(*a)
+
+    def __copy__(self):
+        f, a = self.__reduce__()
+        return f(*a)
+
+
+def _recgen_rebuild(bgcls, st):
+    bg = bgcls()
+    bg.state = st
+    return RecGen(bg)
+
+
+class _Dummy:
+    pass
+
+
+def _mk_rec(mname):
+    def w(self, *a, **k):
+        if RecGen.DEPTH[0]:                                            # choice / permutation call other methods of self internally
+            return getattr(np.random.Generator, mname)(self, *a, **k)
+        a0 = copy.deepcopy(a)
+        k0 = copy.deepcopy(k)
+        RecGen.DEPTH[0] += 1
+        try:
+            r = getattr(np.random.Generator, mname)(self, *a, **k)
+        finally:
+            RecGen.DEPTH[0] -= 1
+        out = r if r is not None else (a[0] if a else None)          # shuffle works in place
+        RecGen.LOG.append((id(self), mname, a0, k0, canon(out)))
+        return r
+    w.__name__ = mname
+    return w
+
+
+for _m in sorted(SK.GEN_ONLY_METHODS - {'bit_generator', 'spawn', 'randn', 'rand', 'randint', 'random_sample'}):
+    if hasattr(np.random.Generator, _m):
+        setattr(RecGen, _m, _mk_rec(_m))
+
+
+def check_generator_only(E, name, label, call, k, fails, stats):
+    """'given a generator object it draws from that object only': every draw is made through the object that was passed (not
+    through a copy of it), and replaying the recorded draws one after another on ONE twin generator in the same initial state
+    gives the recorded values and the same final bit_generator.state"""
+    g = RecGen(np.random.PCG64(k))
+    st0 = copy.deepcopy(g.bit_generator.state)
+    RecGen.LOG = []
+    np.random.seed(1)
+    r, touched = run_call(lambda: call(g))
+    log, RecGen.LOG = RecGen.LOG, []
+    stats['evals'] += 1
+    stats['keys'].append(('generator-only', name, label))
+    inp = dict(recipe=['genonly', name, label], seed=k, mode='generator-object-only')
+    foreign = [e for e in log if e[0] != id(g)]
+    if foreign:
+        fails.append(dict(what=f'{name}: {len(foreign)} of {len(log)} draws were made through another generator object (a copy of the '
+                               f'one passed as seed): the copy replays numbers and the object itself is not advanced by them',
+                          input=inp, got=[e[1] for e in foreign][:6], expected='every draw through the object passed as seed'))
+        return
+    twin = np.random.Generator(np.random.PCG64(k))
+    twin.bit_generator.state = copy.deepcopy(st0)
+    for j, (_, mname, a, kw, res) in enumerate(log):
+        a = copy.deepcopy(a)
+        rr = getattr(twin, mname)(*a, **copy.deepcopy(kw))
+        out = rr if rr is not None else (a[0] if a else None)
+        if canon(out) != res:
+            fails.append(dict(what=f'{name}: draw number {j + 1} ({mname}) does not have the value that drawing all blocks one after '
+                                   f'another from ONE generator gives', input=inp, got=short(res), expected=short(canon(out))))
+            return
+    if repr(twin.bit_generator.state) != repr(g.bit_generator.state):
+        fails.append(dict(what=f'{name}: after the call the state of the generator object is not the state reached by drawing the '
+                               f'{len(log)} recorded blocks one after another from one generator', input=inp,
+                          got=short(repr(g.bit_generator.state), 200), expected=short(repr(twin.bit_generator.state), 200)))
+
+
+def large_recipes(E):
+    """LARGE sizes with a small explicit cap (mode sizes 12..16, TT-ranks 11..30, r = 1 / 2): size-dependent algorithm switches"""
+    tn = E.tn
+    L = E.large
+    R = {}
+    R['matrix_svd r=1'] = lambda: tn.matrix_svd(cp(L['M']), 1e-10, 1)
+    R['matrix_svd r=2 wide'] = lambda: tn.matrix_svd(cp(L['M']).T, 1e-10, 2)
+    R['matrix_skeleton r=1'] = lambda: tn.matrix_skeleton(cp(L['M']), 1e-10, 1)
+    R['matrix_skeleton r=2 rel'] = lambda: tn.matrix_skeleton(cp(L['M']), 1e-3, 2, rel=True, give_to='r')
+    R['truncate r=1'] = lambda: tn.truncate(cp(L['Y']), 1e-10, 1)
+    R['truncate r=2 is_eigh=False'] = lambda: tn.truncate(cp(L['Y']), 1e-10, 2, is_eigh=False)
+    R['truncate e only'] = lambda: tn.truncate(cp(L['Y']), 1e-2)
+    R['svd r=1'] = lambda: tn.svd(cp(L['T']), 1e-10, 1)
+    R['svd_matrix r=1'] = lambda: tn.svd_matrix(cp(L['M16']), 1e-10, 1)
+    R['add+truncate r=1'] = lambda: tn.truncate(tn.add(cp(L['Y']), cp(L['Y'])), 1e-10, 1)
+    R['orthogonalize'] = lambda: tn.orthogonalize(cp(L['Y']), 1)
+    R['tt_to_qtt r=1'] = lambda: tn.tt_to_qtt(cp(L['Y16']), 1e-10, 1)
+    R['optima_tt k=2'] = lambda: tn.optima_tt(cp(L['Y']), 2)
+    R['optima_qtt r=1'] = lambda: tn.optima_qtt(cp(L['Y16']), 2, 1e-10, 1)
+    R['maxvol / maxvol_rect'] = lambda: [tn.maxvol(cp(L['M'])), tn.maxvol_rect(cp(L['M']), 1.1, 1, 2)]
+    R['cross dr_max=2'] = lambda: tn.cross(lambda I: np.sin(np.asarray(I, dtype=float).sum(axis=1) * 0.3), cp(L['Y1']), m=3000, dr_max=2, nswp=3)
+    R['als r=1 adaptive'] = lambda: tn.als(cp(L['I']), cp(L['y']), cp(L['Y1']), nswp=2, r=1)
+    R['als'] = lambda: tn.als(cp(L['I']), cp(L['y']), cp(L['Y2']), nswp=2)
+    R['anova order=2 r=1'] = lambda: tn.anova(cp(L['I']), cp(L['y']), 1, 2, seed=3)
+    R['anova order=2 r=2'] = lambda: tn.anova(cp(L['I']), cp(L['y']), 2, 2, seed=3)
+    R['anova order=1'] = lambda: tn.anova(cp(L['I']), cp(L['y']), 2, 1, seed=3)
+    R['func_int / func_get'] = lambda: tn.func_get(np.linspace(-1, 1, 12).reshape(4, 3), tn.func_int(cp(L['Y'])), -1., 1.)
+    R['optima_func_tt_beam'] = lambda: tn.optima_func_tt_beam(cp(L['Y']), 3, ret_all=True)
+    R['sample_square'] = lambda: tn.sample_square([np.abs(G) + 0.01 for G in L['Y']], 20, seed=4)
+    R['accuracy / norm'] = lambda: [tn.accuracy(cp(L['Y']), cp(L['Y2'])), tn.norm(cp(L['Y']))]
+    return R
+
+
+def check_large(E, fails, stats, only=None):
+    for name, th in large_recipes(E).items():
+        if only and 'large' not in only and name not in only:
+            continue
+        ref = None
+        for i in range(3):
+            np.random.seed(20 + i)
+            r = run_call(th)[0]
+            stats['evals'] += 1
+            stats['keys'].append(('large', name, i))
+            if ref is None:
+                ref = r
+            elif r != ref:
+                fails.append(dict(what=f'{name} (large sizes, small explicit cap): call number {i + 1} with the same arguments is not bit-identical '
+                                       f'to the first call', input=dict(recipe=['large', name], call=i + 1, mode='large-size-regime'),
+                                  got=short(r), expected=short(ref)))
+                break
 
 
 @contextlib.contextmanager
@@ -1646,6 +1832,28 @@ def run_dynamic(tn, rng, deep, only=None):
             fails.append(dict(what=f'{name}: harness raised {e!r}', input=dict(recipe=[name])))
     if not only or 'dict' in only:
         check_dicts(E, fails, stats)
+    if not only or 'large' in only:
+        try:
+            check_large(E, fails, stats)
+        except Exception as e:
+            traceback.print_exc()
+            fails.append(dict(what=f'large sizes: harness raised {e!r}', input=dict(recipe=['large'])))
+    if not only or 'genonly' in only:
+        for R_ in (seeded_recipes(E), degenerate_seeded_recipes(E)):
+            for name, lst in R_.items():
+                if name == '_rand':
+                    continue
+                for label, call in lst:
+                    try:
+                        check_generator_only(E, name, label, call, 900 + seeds[0] % 97, fails, stats)
+                    except Exception as e:
+                        traceback.print_exc()
+                        fails.append(dict(what=f'{name}: generator-only check raised {e!r}', input=dict(recipe=['genonly', name, label])))
+        # sample_tt in dimensions 3 and 4 (left and right blocks are drawn one after the other)
+        for nn in ([4, 3, 5], [3, 4, 2, 3], [5, 1, 4]):
+            for rr in (2, 3):
+                check_generator_only(E, 'sample_tt', f'n={nn} r={rr}', lambda g_, nn=nn, rr=rr: tn.sample_tt(nn, rr, seed=g_),
+                                     901 + rr, fails, stats)
     if not only or 'argform' in only:
         try:
             check_argforms(E, seeds[0] % 1000, fails, stats)
@@ -1655,10 +1863,12 @@ def run_dynamic(tn, rng, deep, only=None):
     if not only or 'shared' in only or 'mutate' in only:
         try:
             lay_seed = rng.randrange(2 ** 31)
-            for lay in ('C', 'F', 'rank1'):
+            off = lay_seed % 3
+            for li, lay in enumerate(('C', 'F', 'rank1')):
                 EL = E if lay == 'C' else Env(tn, C.Rng(lay_seed), layout=lay)
                 if not only or 'shared' in only:
-                    check_shared_args(EL, seeds[-1:], fails, stats)
+                    # quick tier: all recipes on the C layout, a round-robin third on the other two layouts; deep: everything
+                    check_shared_args(EL, seeds[-1:], fails, stats, sample=None if (deep or only or lay == 'C') else (3, (off + li) % 3))
                 if (not only and lay == 'C') or (only and 'mutate' in only):
                     check_result_mutation(EL, seeds[-1:], fails, stats)
         except Exception as e:
@@ -1672,7 +1882,7 @@ def run_dynamic(tn, rng, deep, only=None):
             fails.append(dict(what=f'history probe: harness raised {e!r}', input=dict(recipe=['history'])))
     if not only or 'poison' in only:
         try:
-            poison_probe(E, seeds[-1:], fails, stats)
+            poison_probe(E, seeds[-1:], fails, stats, sample=None if (deep or only) else (3, rng.randrange(3)))
         except Exception as e:
             traceback.print_exc()
             fails.append(dict(what=f'poison probe: harness raised {e!r}', input=dict(recipe=['poison'])))
@@ -1742,7 +1952,7 @@ def search(R, ctx, deep, hints):
     if deep and not fails:
         # the obligation or the correspondence broke: look harder (more worlds, more seeds) -- first at the flagged functions
         flagged = {h['input'].get('function', '').split('.')[-1] for h in hints if h.get('static')}
-        flagged = {('ANOVA' if 'ANOVA' in f else f) for f in flagged} | {'dict', 'import', 'poison', 'history', 'argform', 'shared', 'mutate'}
+        flagged = {('ANOVA' if 'ANOVA' in f else f) for f in flagged} | {'dict', 'import', 'poison', 'history', 'argform', 'shared', 'mutate', 'large', 'genonly'}
         for only in ([sorted(flagged)] if flagged else []) + [None]:
             f2, st = run_dynamic(tn, ctx['rng'], deep=True, only=only)
             n += st['evals']
